@@ -86,4 +86,9 @@ var items = []modItem{
 	{"Level", Item{Dir: "level", Kind: "func", Func: "calcBitStorageSize", Name: "calcBitStorageSize"}},
 	{"Level", Item{Dir: "level", Kind: "func", Func: "calcBitsPerValue", Name: "calcBitsPerValue"}},
 	{"Level", Item{Dir: "level", Kind: "func", Recv: "BitStorage", Func: "calcIndex", Name: "BitStorage_calcIndex"}},
+	// ---- save/region ----
+	{"Region", Item{Dir: "save/region", Kind: "func", Func: "sectorLoc", Name: "sectorLoc"}},
+	{"Region", Item{Dir: "save/region", Kind: "func", Func: "In", Name: "In"}},
+	{"Region", Item{Dir: "save/region", Kind: "func", Func: "At", Name: "At"}},
+	{"Region", Item{Dir: "save/region", Kind: "expr", Recv: "Region", Func: "WriteSector", Local: "need", Name: "WriteSector_need"}},
 }
